@@ -90,5 +90,5 @@ Definition is_nfs4_flags_w_cases : list (N * N) :=
   [(102, 33554432); (100, 67108864); (105, 268435456); (110, 134217728); (83, 536870912); (70, 1073741824); (73, 16777216); (45, 0)]%N.
 Definition acl_fix_text_len_nfs4_noname : bool := true.
 Definition acl_fix_wide_empty_tag : bool := true.
-Definition acl_fix_next_field_sentinel : bool := false.
-Definition acl_fix_ismode_reset : bool := true.
+Definition acl_fix_next_field_sentinel : bool := true.
+Definition acl_fix_ismode_reset : bool := false.
